@@ -149,19 +149,22 @@ def check_outlines_once(ctx, res, case, out, fmt):
                             {"case": case, "glyph": g, "source_shape": k}, {"site": "c03-once", "case": case["id"], "glyph": i})
                 break
             remaining.remove(hit)
-        # base glyph bounds cover all layers
-        if "glyf" in font and fmt != "glyf":
-            bg = font["glyf"][g]
-            if hasattr(bg, "xMin") and dst.leaves:
-                for lf in dst.leaves:
-                    b = lf.path.bounds
-                    if b[2] - b[0] <= 0:
-                        continue
-                    if not (bg.xMin - 1.5 <= b[0] and b[2] <= bg.xMax + 1.5 and bg.yMin - 1.5 <= b[1] and b[3] <= bg.yMax + 1.5):
-                        res.add_cex("COLRv0 base glyph's own bounds do not cover a layer", {"case": case, "glyph": g,
-                                    "base": [bg.xMin, bg.yMin, bg.xMax, bg.yMax], "layer": list(b)}, {"site": "c03-extents", "case": case["id"], "glyph": i})
-                        break
+        # base glyph bounds cover all layers (glyf, CFF and CFF2 alike: bounds of the base glyph's own outline, through the glyph set)
+        if fmt.endswith("colr_0") and dst.leaves:
+            from fontTools.pens.boundsPen import BoundsPen
 
+            gs = font.getGlyphSet()
+            bp = BoundsPen(gs)
+            gs[g].draw(bp)
+            bb = bp.bounds   # None: the base glyph has no outline at all
+            for lf in dst.leaves:
+                b = lf.path.bounds
+                if b[2] - b[0] <= 0:
+                    continue
+                if bb is None or not (bb[0] - 1.5 <= b[0] and b[2] <= bb[2] + 1.5 and bb[1] - 1.5 <= b[1] and b[3] <= bb[3] + 1.5):
+                    res.add_cex("COLRv0 base glyph's own bounds do not cover a layer" + (" (the base glyph is empty)" if bb is None else ""), {"case": case, "glyph": g,
+                                "base": None if bb is None else list(bb), "layer": list(b)}, {"site": "c03-extents", "case": case["id"], "glyph": i})
+                    break
 
 def suite_traversal(ctx, res, n):
     """real Paint.depth_first / breadth_first vs the Lean preorder / level order"""
